@@ -478,18 +478,15 @@ def table_candidates(ctx):
             for u2, q2 in rows[i + 1:]:
                 if q1 == q2:
                     continue
-                l1 = l2 = None
-                for c_, u_ in ctx.pool.get(q1, []):
-                    if u_ == u1:
-                        l1 = ["leaf", u1, c_, 2.0]
-                for c_, u_ in ctx.pool.get(q2, []):
-                    if u_ == u2:
-                        l2 = ["leaf", u2, c_, 3.0]
-                if l1 is None or l2 is None:
+                # any category of the unit's quantity type will do: the dict form of ObtainQuantity checks the unit
+                # against the quantity type of its category only
+                c1 = next((c_ for c_, ci in sorted(ctx.db.categories_to_quantity_types.items()) if ci.quantity_type == q1), None)
+                c2 = next((c_ for c_, ci in sorted(ctx.db.categories_to_quantity_types.items()) if ci.quantity_type == q2), None)
+                if c1 is None or c2 is None or c1 == c2:
                     continue
-                for tree in (["mul", l1, l2], ["div", l1, l2], ["div", ["pow", l1, 2], ["pow", l2, 3]]):
-                    c = _strings_case(ctx, dict(kind="expr", recipe=tree))
-                    if c is not None:
+                for e1, e2 in ((1, 1), (1, -1), (2, -3), (-1, -1)):
+                    c = _strings_case(ctx, dict(kind="dict", entries=[[c1, u1, e1], [c2, u2, e2]]))
+                    if c is not None and "build_error" not in c["_t"]:
                         yield c
 
 
